@@ -22,6 +22,12 @@ type Case struct {
 	Reps    []Rep     `json:"reps,omitempty"`    // C06: repetitions of the same build under different environments
 	Conc    *ConcCase `json:"conc,omitempty"`    // C18 (and the concurrent part of C06)
 	Note    string    `json:"note,omitempty"`
+
+	// PriorJobs are executed in the same process before the case itself: the history of a
+	// long-lived process that a violation turned out to depend on (found when a violation seen
+	// in a worker does not reproduce alone in a fresh process but does after the jobs that
+	// worker had executed before).
+	PriorJobs []Job `json:"prior_jobs,omitempty"`
 }
 
 // Env is the simulated environment of one call / one repetition.
